@@ -189,10 +189,7 @@ func (lp *LessProcessor) compileLessTag(styleNode *html.Node) (err error) {
 
 	// Render LESS to CSS. lessgo's renderer assigns a package-level variable
 	// (functions.BaseDir) on every call, so concurrent renders must not overlap here.
-	lessRenderMu.Lock()
-	r := renderer.NewRenderer()
-	css, err := r.Render(file)
-	lessRenderMu.Unlock()
+	css, err := renderLessLocked(file)
 	if err != nil {
 		return &LessProcessorError{Err: err, Reason: "failed to render LESS to CSS"}
 	}
@@ -201,6 +198,15 @@ func (lp *LessProcessor) compileLessTag(styleNode *html.Node) (err error) {
 	lp.replaceWithStyleTag(styleNode, css)
 
 	return nil
+}
+
+// renderLessLocked runs the lessgo renderer under lessRenderMu. The unlock is deferred: the
+// renderer panics on some input (compileLessTag recovers that), and a mutex left locked
+// would block every later LESS compilation of the process for ever.
+func renderLessLocked(file *dst.File) (string, error) {
+	lessRenderMu.Lock()
+	defer lessRenderMu.Unlock()
+	return renderer.NewRenderer().Render(file)
 }
 
 // replaceWithStyleTag converts a style tag to a style tag with compiled CSS.
